@@ -12,6 +12,8 @@ def jobs(tier):
     return [
         Job(S, "flt-asan", "random", workers=W, cases=8000 if q else 150000, maxtime=150 if q else 1200),
         Job(G, "flt-asan", "random", workers=W, cases=800 if q else 12000, maxtime=240 if q else 2400),
+        # fixed-point build: the gain stage is integer arithmetic, y = sat(round(x*G/65536)); exact interval oracle
+        Job("c19_gain_fix", "fix-asan", "random", workers=W, cases=400 if q else 6000, maxtime=240 if q else 1800),
     ]
 
 
@@ -29,7 +31,9 @@ PROP = dict(
         S + "/sign-change-at-frame-edge": 1000, S + "/channels:8": 200, S + "/shape:signed-zeros": 1000, S + "/shape:huge": 1000,
         G + "/float-scale-checked": 500, G + "/int16-saturating": 150, G + "/int24-beyond-32bit": 60, G + "/plc": 500, G + "/fec-decode": 100,
         G + "/gain-changed-mid-stream": 300, G + "/mode-class-transition-with-gain": 20, G + "/gain:< -58 dB": 60, G + "/gain:> +58 dB": 60,
-        G + "/arch:plain-C": 200}},
+        G + "/arch:plain-C": 200,
+        "c19_gain_fix/integer-scale-checked": 3000, "c19_gain_fix/factor-pinned-by-both-signs": 2000, "c19_gain_fix/int16-saturating": 500, "c19_gain_fix/plc": 1000,
+        "c19_gain_fix/fec-decode": 500}},
     exhaustive_parts={"thorough": [], "quick": []},
     assumptions=[
         "Soft clip inputs are finite (the statement quantifies over finite input); the memory handed in is always one the function itself "
@@ -44,13 +48,18 @@ PROP = dict(
         "Known finding F5 (positive 32-bit overflow in opus_decode24) and F19 (gain applied twice to the first 5 ms after a CELT <-> "
         "SILK/hybrid transition without redundancy) are excluded by construction: F5 = samples with 2^23*x >= 2^31 are not compared; F19 = "
         "the first 5 ms of the real frame of a packet whose mode class may differ from the decoder's previous mode (over-approximated from the TOC bytes, packet fates and frame sizes) are not compared when the gain is non-zero.",
-        "Packet streams are produced by libopus encoders inside the case (up to two spliced); hand-crafted packets are not used."],
+        "Packet streams are produced by libopus encoders inside the case (up to two spliced); hand-crafted packets are not used.",
+        "Fixed-point build (c19_gain_fix): the decoded signal is 16-bit and there is no soft clipper, so the gain-0 decoder's opus_decode output is exactly the "
+        "input of the gain stage; the oracle is the exact integer relation y = sat16(round(x*G/65536)) with one real G per gain value (interval intersection over "
+        "all non-saturated samples must stay non-empty and overlap 10^(g/5120) +- 0.2 %); above +90 dB (g > 23000) celt_exp2() caps the factor and only "
+        "saturation/sign are checked."],
 )
 
 TEXT = dict(
     technique="property-based testing: generated float buffers against the soft clipper's contract (range, bit-exact pass-through, sign, "
               "metamorphic interleaved-vs-per-channel relation over frame sequences); twin-decoder metamorphic test of OPUS_SET_GAIN over "
-              "encoder-generated packet streams with loss, FEC, spliced encoders, gain changes and arch caps",
+              "encoder-generated packet streams with loss, FEC, spliced encoders, gain changes and arch caps; fixed-point build: exact integer interval oracle "
+              "y = sat16(round(x*G/65536)) over gain-0 / gain-g decoder twins",
     level="Exploration: seeded random generation (quick: 1.3e5 soft-clip sequences and 1.3e4 decoded streams; thorough: 2.4e6 and 1.9e5); "
           "no exhaustive part.",
     note="Trusted: IEEE single-precision multiply in the harness equals the decoder's (no fast-math in the flt-asan variant), ASan/UBSan, "
